@@ -194,3 +194,25 @@ Proof.
   split; [|split; [reflexivity|eexists; reflexivity]].
   repeat (constructor; [cbn; intuition lia|]). constructor.
 Qed.
+
+(* the positive counterpart (what fix 3d907c5 of make_dict_hash provides for real
+   numbers: different values, different keys): when the hashes of the grid values
+   are pairwise distinct, the registry can be built *)
+Lemma ps_build_ok_acc {T A : Type} (h : T -> Z) (grid : list T) : forall (pdfs : list A) (t0 : pdfset),
+  NoDup (ps_keys t0 ++ map h grid) -> length grid = length pdfs ->
+  exists tbl, ps_build h t0 grid pdfs = Ok tbl.
+Proof.
+  induction grid as [|v grid IH]; intros pdfs t0 Hnd Hl.
+  - destruct pdfs; [|discriminate]. eexists; reflexivity.
+  - destruct pdfs as [|p pdfs]; [discriminate|]. cbn [ps_build]. unfold ps_add.
+    destruct (K_pdfset_keys (h v)) as [E1 _]. destruct (K_pdfset_keys (pdfset_hash (h v))) as [_ [E2 _]].
+    rewrite E2, E1.
+    destruct (pdfset_add_exists (h v) (ps_keys t0)) eqn:Ex.
+    + exfalso. apply K_pdfset_add_exists in Ex. cbn [map] in Hnd.
+      apply NoDup_remove_2 in Hnd. apply Hnd. apply in_or_app. left. exact Ex.
+    + cbn [bind]. apply IH; [|cbn in Hl; lia].
+      unfold ps_keys. rewrite map_app. cbn [map fst]. rewrite <- app_assoc. exact Hnd.
+Qed.
+Theorem ps_build_ok {T A : Type} (h : T -> Z) (grid : list T) (pdfs : list A) :
+  NoDup (map h grid) -> length grid = length pdfs -> exists tbl, ps_build h [] grid pdfs = Ok tbl.
+Proof. intros Hnd Hl. apply ps_build_ok_acc; [exact Hnd|exact Hl]. Qed.
